@@ -306,6 +306,9 @@ func (x *Exec) callMayWriteHeap(call *ast.CallExpr) bool {
 // nextLoopOrd returns the ordinal of loop statement n. For the function under contract the ordinal is
 // static (source order within the body, function literals excluded), so that it does not depend on how
 // many states reach the loop under path splitting; inlined frames keep a per-activation counter.
+// logGap: marker for an unknown stretch of the ghost write log (loop iterations)
+const logGap = "\x00gap"
+
 // thoroughTier: set by `govc check --tier thorough` (extra reachability probes)
 var thoroughTier bool
 
@@ -555,7 +558,7 @@ func (x *Exec) cutLoop(s *State, ord int, label string, spec *LoopSpec, pos toke
 	x.loopFrameOblige(s, frameNames, ord, "entry", x.pos(pos))
 	h := s.clone()
 	h.calls, h.callsOpen = nil, true // an unknown number of iterations may have called out of the module
-	h.logBad = true                  // ... and may have written: the ghost write log is unknown from here on
+	h.log = append(h.log, logGap)    // ... and may have written: an unknown stretch of the ghost write log
 	x.havocVars(h, ws)
 	x.loopFrameAssume(h, frameNames)
 	if spec != nil {
